@@ -24,6 +24,9 @@ NPROC = min(16, os.cpu_count() or 1)
 RUN_WATCHDOG = 120  # wall seconds for a single simulated run
 
 
+_frozen = [False]
+
+
 class Violation:
     __slots__ = ("clause", "disc", "msg")
 
@@ -63,6 +66,12 @@ def run_once(mod, tier, verif_seed, run_index, replay=None, scenario=None):
     """one simulated run.  Returns (RunResult, recorded tapes).  With
     `scenario` the W tape is bypassed: the workload is the pinned scenario."""
     tapes = Tapes(verif_seed, mod.PROPERTY, run_index, replay=replay)
+    if not _frozen[0]:
+        # everything imported so far is permanent: keep it out of the per-run collections
+        import gc
+        gc.collect()
+        gc.freeze()
+        _frozen[0] = True
     faulthandler.dump_traceback_later(RUN_WATCHDOG, exit=True)
     try:
         if scenario is not None:
@@ -194,6 +203,15 @@ def _worker(prop, tier, verif_seed, wid, nworkers, budget_s, max_runs, known_sig
             i += nworkers
             continue
         st["runs"] += 1
+        subs = getattr(res, "subruns", None)
+        if subs:
+            st["evals"] = st.get("evals", 0) + len(subs)
+            for dg, nt in subs:
+                st["digests"].add(dg[:16])
+                if nt:
+                    st["nontrivial"].add(dg[:16])
+        else:
+            st["evals"] = st.get("evals", 0) + 1
         if res.harness_error:
             st["harness_errors"].append("run %d: %s" % (i, res.harness_error))
             if len(st["harness_errors"]) > 3:
@@ -421,6 +439,7 @@ def main(argv=None):
     }
     for st in results:
         agg["runs"] += st["runs"]
+        agg["evals"] = agg.get("evals", 0) + st.get("evals", st["runs"])
         for k in ("digests", "nontrivial", "interleavings", "abstract"):
             agg[k].update(st[k])
         for k in ("steps", "switches", "sim_seconds"):
@@ -484,12 +503,13 @@ def main(argv=None):
             "wall_s": round(wall, 2),
             "violations": len(reported),
             "coverage": {
-                "evaluations": agg["runs"],
+                "evaluations": agg.get("evals", agg["runs"]),
+                "scenarios": agg["runs"],
                 "distinct_nontrivial": len(agg["nontrivial"]),
                 "distinct_histories": len(agg["digests"]),
                 "rule": meta.get("rule", ""),
                 "samples": agg["samples"][:5] or [{"note": "no sample collected"}],
-                "runs_per_hour": int(agg["runs"] / max(wall, 1e-9) * 3600),
+                "runs_per_hour": int(agg.get("evals", agg["runs"]) / max(wall, 1e-9) * 3600),
                 "exploration_wall_s": budget,
                 "worker_processes": nprocs,
                 "simulated_seconds_covered": round(agg["sim_seconds"], 3),
